@@ -136,11 +136,21 @@ func main() {
 		if err := os.MkdirAll(outDir, 0o755); err != nil {
 			fatal("%v", err)
 		}
+		var inits []string
 		for i, f := range p.files {
 			in := &instr{fset: fset, info: p.info, fileName: filepath.Join(d, p.names[i]), sites: &sites, base: base}
 			in.file(f)
 			if len(in.errs) > 0 {
 				fatal("cannot instrument:\n  %s", strings.Join(in.errs, "\n  "))
+			}
+			// package init functions become ordinary functions (called, in the same order, from the generated
+			// init below) so that a simulation can re-run them INSIDE its bubble: the library's default
+			// instances (and the goroutines they start) then belong to the simulation (SimReinit)
+			for _, dcl := range f.Decls {
+				if fd, ok := dcl.(*ast.FuncDecl); ok && fd.Recv == nil && fd.Name.Name == "init" && fd.Body != nil {
+					fd.Name = ast.NewIdent(fmt.Sprintf("simInit%d", len(inits)))
+					inits = append(inits, fd.Name.Name)
+				}
 			}
 			var buf bytes.Buffer
 			if err := format.Node(&buf, fset, f); err != nil {
@@ -157,7 +167,15 @@ func main() {
 		for _, s := range sites {
 			fmt.Fprintf(&sb, "\t\t%q,\n", s)
 		}
-		sb.WriteString("\t})\n}\n")
+		sb.WriteString("\t})\n")
+		for _, n := range inits {
+			fmt.Fprintf(&sb, "\t%s()\n", n)
+		}
+		sb.WriteString("}\n\n// SimReinit re-runs the package's init functions (instrumented copy only).\nfunc SimReinit() {\n")
+		for _, n := range inits {
+			fmt.Fprintf(&sb, "\t%s()\n", n)
+		}
+		sb.WriteString("}\n")
 		if err := os.WriteFile(filepath.Join(outDir, "zz_simsites.go"), []byte(sb.String()), 0o644); err != nil {
 			fatal("%v", err)
 		}
